@@ -111,7 +111,9 @@ class Builder:
         for c in prog:
             if c['t'] == 'sub':
                 sub = self.build(c['body'], c['reps'], top=False)
-                entries.append(circuit.add(sub))
+                # nested through the generic add(), as a DeclarativeCircuit or as its raw circuit structure (a deterministic choice)
+                raw = (len(c['body']) + len(entries)) % 2 == 1
+                entries.append(circuit.add(sub.circuit_structure if raw else sub))
                 continue
             rel = None
             r = c.get('rel')
